@@ -1,5 +1,6 @@
 import asyncio
 import functools as ft
+import inspect
 import itertools as it
 import json
 import logging
@@ -67,6 +68,14 @@ class Method:
 
         return ft.partial(self.method, *method_args, **method_kwargs)
 
+    @property
+    def injected_params(self) -> Tuple[str, ...]:
+        """
+        Names of the method parameters that are supplied by the dispatcher and not by the JSON-RPC request.
+        """
+
+        return (self.context,) if self.context else ()
+
     def copy(self, **kwargs: Any) -> 'Method':
         cls_kwargs = dict(name=self.name, context=self.context, positional=self.positional)
         cls_kwargs.update(kwargs)
@@ -111,6 +120,15 @@ class ViewMethod(Method):
         method_params = self.validator.validate_method(method, params, **self.validator_args)
 
         return ft.partial(method, **method_params)
+
+    @property
+    def injected_params(self) -> Tuple[str, ...]:
+        # the context goes to the view constructor; the view instance itself is bound to the method by the dispatcher
+        attr = inspect.getattr_static(self.view_cls, self.method_name)
+        if inspect.isfunction(attr):
+            return tuple(list(inspect.signature(attr).parameters)[:1])
+
+        return ()
 
     def copy(self, **kwargs: Any) -> 'ViewMethod':
         cls_kwargs = dict(name=self.name, context=self.context, positional=self.positional)
